@@ -45,7 +45,7 @@ func SessionC10(t *tape.Tape) *core.RunResult {
 		s.teardown()
 		return res
 	}
-	idle := func() bool { return (s.canDeliver() && s.mtInFlight == "") || s.outClosed }
+	idle := func() bool { return (s.canDeliver() && !s.k.LockHeld()) || s.outClosed }
 
 	s.sync()
 	for i := 0; i < nCmds; i++ {
